@@ -38,11 +38,41 @@ class TRaw:
         return self._sort
 
 
+def owner_pair():
+    """pair(container, key): the slot a row object was created for (injective: fst / snd are its inverses)."""
+    return z3.Function("slot", ObjSort, ObjSort, ObjSort), z3.Function("slot_container", ObjSort, ObjSort), z3.Function("slot_key", ObjSort, ObjSort)
+
+
 def register(R):
     """Called by a contract module that wants mutable mapping objects."""
     R.mutable_maps = True
     R.attrs["$mh"] = (TRaw(ROW_B), True)
     R.attrs["$mv"] = (TRaw(ROW_V), True)
+    # ghost: the slot (container, key) a defaultdict row was created for; never changes once set.  Lets an invariant say "the row of q is
+    # the object created for q" with one bound variable -- rows of different keys, or of different containers, are then different objects.
+    R.attrs["$mo"] = (TObj(), True)
+
+    def sp_row_slot(ex, n):
+        x = ex.ev(n.args[0])
+        return VObj(ex.heap_arr("$mo", TObj())[ex.box(x)])
+
+    def sp_slot(ex, n):
+        c, k = ex.ev(n.args[0]), ex.ev(n.args[1])
+        pair, fst, snd = owner_pair()
+        ct, kt = ex.box(c), ex.box(k)
+        if not ex.bound_ids and ex.collector is None:
+            ex.assume(z3.And(fst(pair(ct, kt)) == ct, snd(pair(ct, kt)) == kt, pair(ct, kt) != PyNone))
+        else:
+            ex.assume(z3.And(fst(pair(ct, kt)) == ct, snd(pair(ct, kt)) == kt, pair(ct, kt) != PyNone))
+        return VObj(pair(ct, kt))
+    def sp_allocated(ex, n):
+        """allocated(x): the object exists in the current state (objects created later by the code are different from it)."""
+        return VBool(ex.st.alloc[ex.box(ex.ev(n.args[0]))])
+    R.spec_builtins["allocated"] = sp_allocated
+    R.constructors["collections.defaultdict"] = lambda ex, args, kwargs: ex.new_defaultdict(args, kwargs)
+    R.constructors["defaultdict"] = R.constructors["collections.defaultdict"]
+    R.spec_builtins["row_slot"] = sp_row_slot
+    R.spec_builtins["slot"] = sp_slot
 
 
 class HeapMaps(Dyn):
@@ -68,6 +98,14 @@ class HeapMaps(Dyn):
         boxed = self.st.ghost.get("$boxed") or {}
         return z3.simplify(v.t).get_id() not in boxed
 
+    def key_term(self, k):
+        """Boxed key; the key is a ground term worth instantiating the contract's universals at."""
+        if isinstance(k, VStr):
+            self.touch(TStr, k.t)
+        kt = self.box(k)
+        self.touch(TObj(), kt)
+        return kt
+
     def row_nonempty(self, row):
         return z3.Function("row_nonempty", ROW_B, z3.BoolSort())(row)
 
@@ -84,6 +122,7 @@ class HeapMaps(Dyn):
         d = self.fresh_obj(cls)
         self.assume(z3.And(kind_of(d) == 5, self.class_pred(cls)(d)))
         self.st.objheap["$mh"] = z3.Store(self.mh(), d, z3.K(ObjSort, z3.BoolVal(False)))
+        self.st.objheap["$mo"] = z3.Store(self.heap_arr("$mo", TObj()), d, PyNone)     # not (yet) the row of any slot
         return d
 
     def value_facts(self, val):
@@ -96,6 +135,12 @@ class HeapMaps(Dyn):
         self.st.objheap["$mh"] = z3.Store(H, o, z3.Store(H[o], kt, z3.BoolVal(True)))
         self.st.objheap["$mv"] = z3.Store(W, o, z3.Store(W[o], kt, vt))
         self.row_facts(o, kt)
+
+    def _contains(self, c, x):
+        if self.is_heap_map(c):
+            kt = self.key_term(x)        # the key becomes a ground term the contract's universals are instantiated at
+            self.row_facts(c.t, kt)
+        return super()._contains(c, x)
 
     # ------------------------------------------------------------------ truthiness
     def truth(self, v):
@@ -113,7 +158,7 @@ class HeapMaps(Dyn):
             base = self.ev(n.value)
             if self.is_heap_map(base) and base.cls == "defaultdict" and not self.spec_mode:
                 k = self.ev(n.slice)
-                kt = self.box(k)
+                kt = self.key_term(k)
                 o = base.t
                 if self.branch(self.mh()[o][kt]):
                     val = self.mv()[o][kt]
@@ -122,7 +167,15 @@ class HeapMaps(Dyn):
                     return VObj(val, "dict")
                 d = self.new_map_object("dict")
                 self.map_store(o, kt, d)
+                pair, fst, snd = owner_pair()
+                self.assume(z3.And(fst(pair(o, kt)) == o, snd(pair(o, kt)) == kt, pair(o, kt) != PyNone))
+                self.st.objheap["$mo"] = z3.Store(self.heap_arr("$mo", TObj()), d, pair(o, kt))
                 return VObj(d, "dict")
+            if self.is_heap_map(base) and self.spec_mode:
+                try:
+                    self.key_term(self.ev(n.slice))
+                except Unsupported:
+                    pass
             self._pre_base = (n.value, base)
             try:
                 r = super()._ev_Subscript(n)
@@ -143,7 +196,7 @@ class HeapMaps(Dyn):
                 if not self.branch(base.t != PyNone):
                     raise PyRaise(VExc("TypeError", []))
                 k = self.ev(t.slice)
-                self.map_store(base.t, self.box(k), self.box(v))
+                self.map_store(base.t, self.key_term(k), self.box(v))
                 return
             self._pre_base = (t.value, base)
             try:
@@ -171,7 +224,7 @@ class HeapMaps(Dyn):
         return super().st_Delete(s)
 
     def map_delete(self, base, k, missing_ok=False):
-        o, kt = base.t, self.box(k)
+        o, kt = base.t, self.key_term(k)
         H = self.mh()
         if not self.branch(H[o][kt]):
             if missing_ok:
@@ -182,6 +235,13 @@ class HeapMaps(Dyn):
         return VObj(old)
 
     # ------------------------------------------------------------------ methods of mapping objects
+    MAP_METHODS = ("get", "keys", "values", "items", "clear", "pop")
+
+    def get_attr(self, base, name, node=None):
+        if name in self.MAP_METHODS and self.is_heap_map(base) and base.cls in MAPCLS:
+            return VMethod(base, name)
+        return super().get_attr(base, name, node)
+
     def call_method(self, recv, name, args, kwargs, node):
         if self.is_heap_map(recv) and (recv.cls in MAPCLS) and name in ("get", "keys", "values", "items", "clear", "pop"):
             o = recv.t
@@ -190,7 +250,7 @@ class HeapMaps(Dyn):
             H, W = self.mh(), self.mv()
             inner = "dict" if recv.cls == "defaultdict" else None
             if name == "get":
-                kt = self.box(args[0])
+                kt = self.key_term(args[0])
                 self.row_facts(o, kt)
                 val = W[o][kt]
                 self.value_facts(val)
@@ -202,12 +262,28 @@ class HeapMaps(Dyn):
             if name == "pop":
                 r = self.map_delete(recv, args[0], missing_ok=len(args) > 1)
                 return args[1] if r is None else r
-            if name in ("keys", "items"):
+            if name == "keys":
+                return self.map_keys(recv)
+            if name == "items":
                 view = self.obj_as_dict(recv)       # snapshot of the (string) keys / values now
                 return super().call_method(view, name, args, kwargs, node)
             if name == "values":
                 return self.map_values(recv)
         return super().call_method(recv, name, args, kwargs, node)
+
+    def map_keys(self, recv):
+        """d.keys() (string keys) as a duplicate-free list of exactly the keys the mapping has now."""
+        o = recv.t
+        H = self.mh()[o]
+        bs = z3.Function("box_str", z3.StringSort(), ObjSort)
+        arr = self.fresh("mapkeys", z3.ArraySort(z3.IntSort(), z3.StringSort()))
+        idx = self.fresh("mapkeysidx", z3.ArraySort(z3.StringSort(), z3.IntSort()))
+        n = self.fresh("nmapkeys", z3.IntSort())
+        self.assume(n >= 0)
+        self.assume((n > 0) == self.row_nonempty(H))
+        lst = ListV(TList(TStr), arr, n, idx)
+        self.injlist_facts(lst, lambda k: H[bs(k)])
+        return self.new_box(lst)
 
     def map_values(self, recv):
         """d.values() as a list: as many items as keys; item i is the value of some key key_at(i) (distinct positions, distinct keys)."""
@@ -232,14 +308,10 @@ class HeapMaps(Dyn):
         return self.new_box(ListV(TList(TObj()), arr, n))
 
     # ------------------------------------------------------------------ construction
-    def bi_collections_defaultdict(self, args, kwargs, node):
-        if not self.mm():
-            raise Unsupported("defaultdict without mutable mapping objects")
+    def new_defaultdict(self, args, kwargs):
         if not (len(args) == 1 and isinstance(args[0], (VBuiltin, VClass)) and getattr(args[0], "name", None) == "dict"):
             raise Unsupported("defaultdict with a factory other than dict")
         return VObj(self.new_map_object("defaultdict"), "defaultdict")
-
-    bi_defaultdict = bi_collections_defaultdict
 
     def box(self, v):
         if self.mm() and isinstance(v, VCont) and isinstance(self.cont(v), EmptyV) and self.cont(v).kind == "dict" \
